@@ -451,6 +451,31 @@ Theorem c16_backends_agree :
 Proof. exact p_backends_agree. Qed.
 Print Assumptions c16_backends_agree.
 
+(* G1 relaxed, per descriptor: for the log of descriptor d it suffices that no OTHER descriptor's callback aims an
+   action at d.  d's own callbacks may add/remove any descriptor (also others), and the other descriptors may do to
+   each other whatever they like: the service order of the back-ends then changes THEIR logs, not d's.
+   p_d_ok c d: (G1') no script of a descriptor x <> d contains an action aimed at d; (G2) d is not delete_on_close;
+   (G3) d's own actions register d for writing only if d is a socket; (G4) the actions of d's read / close script
+   that are aimed at d do not contain all of RemoveRead, RemoveWrite, AddWrite.  p_ops_ok_d: no top-level AddWrite
+   of d if d is a pipe.  (c16_backends_agree is the special case where this holds for every descriptor.) *)
+Theorem c16_backends_agree_per_descriptor :
+  forall (c : p_cfg) (ops : list p_op) (d : nat),
+    p_d_ok c d = true -> p_ops_ok_d c d ops = true -> d < length c ->
+    p_proj d (p_log (p_run true c ops)) = p_proj d (p_log (p_run false c ops)).
+Proof. exact (fun c ops d G O L => p_agree_d c d G L ops O). Qed.
+Print Assumptions c16_backends_agree_per_descriptor.
+
+(* guard met by a descriptor whose callback removes ANOTHER ready descriptor: d0's log is the same on both
+   back-ends although d1's is not (epoll serves d1 first when the ready list is in descending order) *)
+Example c16_per_descriptor_guard_satisfiable :
+  let c := [Build_p_dcfg PSock false false 9 [PARemR 1; PAAddW 0] [PARemW 0] [];
+            Build_p_dcfg PPipe false false 9 [] [] []] in
+  let ops := [POAddR 0; POAddR 1; POWrite 0 [1%N]; POWrite 1 [2%N]; POPoll true; POPoll false] in
+  p_d_ok c 0 = true /\ p_ops_ok_d c 0 ops = true /\ p_d_ok c 1 = false /\ p_cfg_ok c = false /\
+  length (p_proj 0 (p_log (p_run true c ops))) = 2 /\
+  p_proj 1 (p_log (p_run true c ops)) <> p_proj 1 (p_log (p_run false c ops)).
+Proof. vm_compute. repeat split; try reflexivity. discriminate. Qed.
+
 (* ... and both equal the run of the single-descriptor abstract machine (what "the callbacks of d" are). *)
 Theorem c16_backends_refine_abstract :
   forall (c : p_cfg) (ops : list p_op) (d : nat) (be : bool),
